@@ -8,7 +8,7 @@ VARIABLES l, bad
 Init == l = 1 /\ bad = <<>>
 Exp(r) == IF Eq(r.in.a, r.in.b) THEN <<"nil", "nil">> ELSE <<"err", "err">>
 Next == /\ l <= Len(Recs) /\ l' = l + 1
-        /\ LET r == Recs[l] IN bad' = IF r.out = Exp(r) THEN bad ELSE Append(bad, [line |-> l, exp |-> Exp(r)])
+        /\ LET r == Recs[l] IN bad' = IF r.panic = "" /\ r.out = Exp(r) THEN bad ELSE Append(bad, [line |-> l, exp |-> Exp(r)])
 Spec == Init /\ [][Next]_<<l, bad>>
 Done == (l = Len(Recs) + 1) =>
           Serialize(ToJson([consumed |-> l - 1, lines |-> Len(Recs), bad |-> bad]) \o "\n", RESULT,
